@@ -66,7 +66,24 @@ fn gen_table(rng: &mut Rng, tier: Tier, small: bool) -> Value {
         sorted_by_k: sorted,
         ..Default::default()
     };
-    json!({"parts": tg.generate(rng), "sorted": sorted, "view": rng.chance(1, 3)})
+    let mut parts = tg.generate(rng);
+    // degenerate key columns: every key NULL (NOT IN / null-aware anti joins, NULL groups, NULL sort keys)
+    // or every key the same (one group, one hash bucket, one equal-key run)
+    if rng.chance(1, 8) {
+        let all_null = rng.chance(1, 2);
+        if let Some(ps) = parts.as_array_mut() {
+            for steps in ps.iter_mut().filter_map(|p| p.as_array_mut()) {
+                for st in steps.iter_mut() {
+                    if let Some(rows) = st.get_mut("b").and_then(|b| b.as_array_mut()) {
+                        for r in rows.iter_mut().filter_map(|r| r.as_array_mut()) {
+                            r[0] = if all_null { Value::Null } else { json!(1) };
+                        }
+                    }
+                }
+            }
+        }
+    }
+    json!({"parts": parts, "sorted": sorted, "view": rng.chance(1, 3)})
 }
 
 /// Inserts one fault step ("err" or "panic") at a random position of a random partition.
